@@ -245,6 +245,15 @@ func TestSingleUseNode(t *testing.T) {
 			return hs
 		}
 		ver := func(t *rapid.T, label string) byte { return byte(rapid.IntRange(0, 2).Draw(t, label)) }
+		// most cases steer around the listed known findings so that the history goes on after a repeat
+		avoidV2Repeat := vk.IsKnown("C33:single-use:context-check:v2:recorded-hash-accepted") && rapid.IntRange(0, 9).Draw(t, "avoidKnownV2") < 6
+		avoidSameBlock := vk.IsKnown("C33:single-use:same-block:output-payload-hashes-unchecked") && rapid.IntRange(0, 9).Draw(t, "avoidKnownSameBlock") < 6
+		repeatVer := func(t *rapid.T, label string) byte {
+			if avoidV2Repeat {
+				return byte(rapid.IntRange(0, 1).Draw(t, label))
+			}
+			return ver(t, label)
+		}
 
 		actions := map[string]func(*rapid.T){
 			"": func(*rapid.T) {},
@@ -287,7 +296,7 @@ func TestSingleUseNode(t *testing.T) {
 				if len(xs) == 0 || len(rec) == 0 {
 					t.Skip()
 				}
-				v := ver(t, "ver")
+				v := repeatVer(t, "ver")
 				h := rec[rapid.IntRange(0, len(rec)-1).Draw(t, "recordedHash")]
 				salt++
 				_, err := m.deliver(t, tip, []interfaces.Transaction{m.withdraw(v, []common.Uint256{h}, xs[0], tip.Height+1)}, salt)
@@ -305,6 +314,9 @@ func TestSingleUseNode(t *testing.T) {
 					t.Skip()
 				}
 				va, vb := ver(t, "verA"), ver(t, "verB")
+				if avoidSameBlock {
+					va, vb = 0, 0 // both hashes in the payload list: CheckDuplicateTx must reject the block
+				}
 				h := m.freshHash()
 				salt++
 				_, err := m.deliver(t, tip, []interfaces.Transaction{
@@ -324,7 +336,7 @@ func TestSingleUseNode(t *testing.T) {
 				if len(xs) == 0 || len(rec) == 0 {
 					t.Skip()
 				}
-				v := ver(t, "ver")
+				v := repeatVer(t, "ver")
 				h := rec[rapid.IntRange(0, len(rec)-1).Draw(t, "recordedHash")]
 				e := n.Pool.AppendToTxPool(m.withdraw(v, []common.Uint256{h}, xs[len(xs)-1], tip.Height+1))
 				m.ops = append(m.ops, fmt.Sprintf("poolRepeat v%d -> %v", v, e))
